@@ -36,6 +36,9 @@ func typeSort(t string) string {
 	case "string":
 		return SStr
 	}
+	if opaqueSort(t) != nil {
+		return t
+	}
 	cfail("unknown contract type %q", t)
 	return ""
 }
@@ -227,6 +230,8 @@ func (e *Engine) ceval(x CExpr, env *Env) Value {
 				return env.fc.heapLoad(env.st, b.Elem, b.Ref, elemIx(b.Off, idx.T))
 			}
 			return Sc{app("select", app("select", e.heapFor(env, es), b.Ref), elemIx(b.Off, idx.T)), es}
+		case OSeqV:
+			return b.at(idx.T)
 		case MapV:
 			if b.Global != nil {
 				v, _ := e.tableLookup(env.st, env.fc, b.Global, idx)
@@ -254,6 +259,25 @@ func (e *Engine) ceval(x CExpr, env *Env) Value {
 		return Sc{app("gs.sub", b.T, lo, hi), SStr}
 	case *CSel:
 		base := e.ceval(n.X, env)
+		if p, ok := base.(PtrV); ok && !p.Heap && p.OSeq == nil && env.st != nil {
+			// implicit dereference, as in Go
+			if cv, ok := env.st.cells[p.Cell]; ok {
+				base = cv
+				for _, f := range p.Path {
+					if sv, ok := base.(StructV); ok {
+						base = sv.F[f]
+					}
+				}
+			}
+		}
+		if sc, ok := base.(Sc); ok {
+			if ot := opaqueSort(sc.S); ot != nil {
+				if v, ok := opaqueField(ot, sc.T, n.Name); ok {
+					return v
+				}
+				cfail("no field %s in %s", n.Name, ot.GoType)
+			}
+		}
 		sv, ok := base.(StructV)
 		if !ok {
 			cfail("field %s of %T", n.Name, base)
@@ -377,6 +401,8 @@ func (e *Engine) cevalCall(n *CCall, env *Env) Value {
 			return Sc{app("gs.len", v.T), SInt}
 		case SliceV:
 			return Sc{v.Len, SInt}
+		case OSeqV:
+			return Sc{v.lenTerm(), SInt}
 		}
 		cfail("len of unsupported value")
 	case "cap":
